@@ -103,6 +103,21 @@ def same(a, b, tol=1e-9, fields=None):
     return a == b
 
 
+def _default_to_engine(v):
+    """Python floats become exact Fractions (the engine's representation of a float value); containers are converted element-wise."""
+    if isinstance(v, bool) or v is None or isinstance(v, (int, str)):
+        return v
+    if isinstance(v, float):
+        return Fraction(v)
+    if isinstance(v, tuple):
+        return tuple(_default_to_engine(x) for x in v)
+    if isinstance(v, list):
+        return [_default_to_engine(x) for x in v]
+    if isinstance(v, dict):
+        return {k: _default_to_engine(x) for k, x in v.items()}
+    return v
+
+
 def crosscheck(ctx, I, fsrc, native, cases, to_engine=None, fields=None, tol=1e-9, label=None):
     """cases: iterable of argument tuples (native values).  `to_engine(args)` converts them for the engine (default: unchanged; numpy
     arrays are wrapped by the caller).  -> (agree, skipped, total); disagreements are appended to ctx.checker_errors."""
@@ -116,7 +131,7 @@ def crosscheck(ctx, I, fsrc, native, cases, to_engine=None, fields=None, tol=1e-
         except Exception as e:  # noqa
             want, wexc = None, type(e).__name__
         try:
-            eargs = list(to_engine(args) if to_engine else args)
+            eargs = list(to_engine(args) if to_engine else _default_to_engine(args))
             res = I.run(fsrc, eargs)
         except Unsupported as e:
             skipped += 1
